@@ -56,7 +56,7 @@ TDeliver == /\ IsEv("deliver") /\ log # <<>>
 TBegin == IsEv("begin") /\ Begin(E.q)
 TUnregister == IsEv("unregister") /\ Unregister(E.q)
 TRegister == IsEv("register") /\ Register(E.q)
-TRead == IsEv("read") /\ Read(E.q) /\ held'[E.q] = Rng(E.ids)
+TRead == IsEv("read") /\ Read(E.q) /\ held'[E.q] = Rng(E.got)
 TQuiescent == /\ IsEv("quiescent") /\ Quiescent
               /\ \A q \in Active : held[q] = Rng(E.held[q])
               /\ UNCHANGED vars
